@@ -5,6 +5,7 @@ go 1.18
 require (
 	github.com/dgryski/go-spooky v0.0.0-20170606183049-ed3d087f40e2
 	github.com/facebookincubator/dns/dnsrocks v0.0.0
+	github.com/miekg/dns v1.1.50
 	github.com/repustate/go-cdb v0.0.0-20160430174706-6a418fad95e2
 )
 
@@ -21,8 +22,8 @@ require (
 	github.com/golang/protobuf v1.5.2 // indirect
 	github.com/hashicorp/golang-lru v0.5.4 // indirect
 	github.com/matttproud/golang_protobuf_extensions v1.0.1 // indirect
-	github.com/miekg/dns v1.1.50 // indirect
 	github.com/opentracing/opentracing-go v1.2.0 // indirect
+	github.com/pkg/errors v0.9.1 // indirect
 	github.com/prometheus/client_golang v1.13.0 // indirect
 	github.com/prometheus/client_model v0.2.0 // indirect
 	github.com/prometheus/common v0.37.0 // indirect
